@@ -100,7 +100,7 @@ def _model_check(ctx):
         for attempt in (1, 2):
             try:
                 return tlc.mc(SPEC_DIR, mod, cfg, extra_files=files, workers=8,
-                              timeout=300 if ctx.quick else 1500, heap='4g')
+                              timeout=600 if ctx.quick else 1500, heap='4g')
             except tlc.MachineryError as e:
                 if attempt == 2 or 'rc=143' not in str(e):
                     raise
